@@ -9,7 +9,7 @@ root = os.path.dirname(os.path.dirname(os.path.abspath(__file__)))
 wt = "/tmp/mut/_confirm"
 def sh(*a, **k): return subprocess.run(a, capture_output=True, text=True, **k)
 head = sh("git", "-C", "/repo", "rev-parse", "HEAD").stdout.strip()
-names = sys.argv[1:] or sorted(os.listdir(os.path.join(root, "seeded")))
+names = sys.argv[1:] or sorted(n for n in os.listdir(os.path.join(root, "seeded")) if not n.startswith("_"))
 os.makedirs("/tmp/mut", exist_ok=True)
 if not os.path.isdir(wt): sh("git", "-C", "/repo", "worktree", "add", "--detach", wt, "HEAD")
 for name in names:
